@@ -347,7 +347,7 @@ def check(fx, rep, tier):
                     if s.get("s") == "Let" and "init" in s and idx_local in F.pat_bindings(s["pat"]) and pattern_variants_deep(s["pat"]) == {"KnownData"}:
                         ok = True
                 rep.oblige(ok, "R11.4", f"row-index:{F.strip_generics(b['def'])}", F.loc(n["span"]), "the layout row index is not the constant under the StorageSlot: slot identity would depend on something positional", sample={"rule": "R11.4", "index": "KnownData under StorageSlot"})
-    rep.floor("R11.4", adds, 2, "calls of StorageLayout::add")
+    rep.floor("R11.4", adds, 1, "calls of StorageLayout::add")
     # ---------------------------------------------------------------- R11.5 slot-number independence
     rows5 = tables.Keyed("const_inspections.tsv", fx)
     found5 = constant_readers(fx, lambda d: "tc::lift" in d or "tc::rule" in d)
